@@ -50,6 +50,9 @@ CHECKS = {
  "C13": ("differential testing against a reference macro expander: proptest-generated macro libraries (parameter names that are prefixes/substrings of each other and of body tokens, operands abstracted into parameters, nested and macro-valued uses, back edges, self recursion, unknown names, late definitions, uses inside procedures) are expanded by an independent textual reference (whole-identifier substitution, explicit cycle check); the assembler's output for the program with macros must equal its output for the hand-expanded program, rejection iff the reference rejects or the expansion is invalid, diagnostic on the line of the outermost use; cyclic cases and chains up to depth 64 / 4096 run in a resource-limited child process",
          "exploration; 3.2*10^3 (quick) / 10^5 (thorough) macro libraries, each assembled twice (with macros / hand-expanded); population of nesting depth >= 2, macro-valued parameters, substring parameter names, recursion, unknown macros, override arguments asserted; termination on deep and cyclic chains decided by the child's exit status (signal = violation, watchdog = inconclusive)",
          "trusted: the textual reference expander in the harness; argument kinds are those the statement lists; equal argument and parameter counts; the documented space before the bracket of a macro-valued parameter", "3/C13"),
+ "C14": ("mutation-based negative testing: proptest-generated valid, terminating parent programs (marker written by the first executed instructions, a never-executed block of random instructions of every class); every applicable single semantic mutation of the property's list is applied, one mutant per site and in rotation at a live position, inside a procedure and at the end of the file; each mutant is assembled in-process with the driver's undefined-label / start checks replicated, and a seeded subset is run through the CLI (diagnostic present, no marker, no program output, status 0); the parent must be accepted and print its marker",
+         "exploration; 4*10^2 (quick) / 1.2*10^4 (thorough) parents x ~120 mutants each in-process (17 error classes, population per class asserted), 2.4*10^3 / 6*10^4 mutants through the real driver",
+         "trusted: the mutation operators produce programs that are invalid by the statement's own list (definitive width mismatches only; constants exactly one past a range; forward calls and negative constants for unsigned operands are not used)", "3/C14"),
 }
 
 REASON_WIP = "check not built yet in this revision of /verif (work in progress; see DESIGN.md section 7 for the order of work)"
